@@ -162,7 +162,26 @@ func newIdxEnv(typed bool, prefix string) (*idxEnv, error) {
 	if typed {
 		env.st.SetType(tItem{})
 	}
-	env.qs = badgerstore.NewQueryStore(env.st, idxIQ).
+	// "prepared=1": the callback hands out one IndexQuery value per distinct query, built
+	// once and used again for every later call (an application caching its parsed queries)
+	prepared := map[string]*badgerstore.IndexQuery{}
+	var pmu sync.Mutex
+	env.qs = badgerstore.NewQueryStore(env.st, func(qs *badgerstore.QueryStore, v url.Values) (*badgerstore.IndexQuery, error) {
+		if v.Get("prepared") != "1" {
+			return idxIQ(qs, v)
+		}
+		pmu.Lock()
+		defer pmu.Unlock()
+		key := v.Encode()
+		if iq, ok := prepared[key]; ok {
+			return iq, nil
+		}
+		iq, err := idxIQ(qs, v)
+		if err == nil {
+			prepared[key] = iq
+		}
+		return iq, err
+	}).
 		AddIndex(badgerstore.Index{Name: "k", Key: idxKey("k", env)}).
 		AddIndex(badgerstore.Index{Name: "x2", Key: idxKey("k2", nil)})
 	return env, nil
@@ -465,6 +484,18 @@ func (e *idxEnv) checkQueries(c *core.Ctx, prop string, hist []idxMut, qs []idxQ
 		}
 		if len(want) > 0 || q.Offset > 0 {
 			c.Distinct(fmt.Sprintf("%s/%s/%+v", c.Batch.Name, tag, q))
+		}
+		// the same query through a prepared IndexQuery value, three times over
+		pv := q.values()
+		pv.Set("prepared", "1")
+		for k := 1; k <= 3; k++ {
+			res, err := e.qs.Query(pv)
+			got, _ := res.([]string)
+			if err != nil || strings.Join(got, "\x1f") != strings.Join(want, "\x1f") {
+				c.Violation(prop+"/query-mismatch:prepared-query-reused", fmt.Sprintf("use %d of one prepared IndexQuery value for %+v returned %v (err %v), reference scan gives %v (%s)", k, q, got, err, want, tag),
+					map[string]interface{}{"query": q, "got": got, "want": want, "use": k, "typed": e.typed, "prefix": e.prefix})
+				break
+			}
 		}
 	}
 }
